@@ -13,3 +13,92 @@ Theorem C02_strict_total : forall bs et, bytes_ok bs ->
   (forall b, SlicedPacket.from_ip bs <> Bug b).
 Proof. exact strict_total. Qed.
 Print Assumptions C02_strict_total.
+
+(* ======================================================================== *)
+(* Accessors, conversions and iterators reachable from the strict slice types
+   (Parse/Access.v): unwrap / expect / checked indexing / usize subtraction are
+   `Bug` values of the model, the iterator loop has a fuel whose exhaustion is a
+   `Bug` as well.  Proofs in Parse/AccessProofs.v. *)
+From EP Require Import Parse.Access Parse.AccessProofs.
+
+(* every accessor / to_header / to_packet / iterator run on every component of every
+   strict whole-packet result returns normally (Ok, or the one documented Err of
+   Ipv4HeaderSlice::payload_len) *)
+Theorem C02_accessors_total : forall bs et p, bytes_ok bs -> entry bs et p ->
+  forall r, In r (SlicedPacketA.accessors p) -> r = Ok tt \/ exists e, r = Err e.
+Proof. exact packet_accessors_total. Qed.
+Print Assumptions C02_accessors_total.
+
+(* IpAuthHeaderSlice::to_header: IpAuthHeader::new(..).unwrap() cannot fail (ICV length
+   (p+2)*4-12 is a multiple of 4 and <= 1016) *)
+Theorem C02_auth_to_header_unwrap : forall s h,
+  IpAuthHeaderSlice.from_slice s = Ok h -> bytes_ok (snd s) ->
+  exists v, IpAuthHeaderA.to_header h = Ok v.
+Proof. exact auth_to_header_unwrap. Qed.
+Print Assumptions C02_auth_to_header_unwrap.
+
+(* Ipv6RawExtHeaderSlice::to_header: new_raw(..).unwrap() cannot fail (payload length
+   (b+1)*8-2 lies in [6,2046] and (len+2) mod 8 = 0) *)
+Theorem C02_raw_ext_to_header_unwrap : forall s h,
+  Ipv6RawExtHeaderSlice.from_slice s = Ok h -> bytes_ok (snd s) ->
+  exists v, Ipv6RawExtHeaderA.to_header h = Ok v.
+Proof. exact raw_ext_to_header_unwrap. Qed.
+Print Assumptions C02_raw_ext_to_header_unwrap.
+
+(* the extension iterator over every Ipv6ExtensionsSlice that from_slice returns (for
+   EVERY start number and slice): the loop `for h in exts` ends within length+1 calls of
+   next without Bug (no out-of-fuel, no unchecked failure), yields at most len/8 items,
+   and the yielded header windows tile the exts window exactly (progress: each item
+   starts where the previous one ended) *)
+Theorem C02_exts_iter_bounded : forall nh s x nx rest,
+  Ipv6ExtensionsSlice.from_slice nh s = Ok (x, nx, rest) ->
+  exists l, Ipv6ExtIterA.items x = Ok l /\
+            8 * len l <= s_len (x6_slice x) /\
+            tiles (s_off (x6_slice x)) (map item_win l) (s_off (x6_slice x) + s_len (x6_slice x)) /\
+            Forall item_wf l /\
+            Forall (fun i => sub_of (ext_item_slice i) (x6_slice x)) l.
+Proof. exact exts_iter_bounded. Qed.
+Print Assumptions C02_exts_iter_bounded.
+
+(* the same for the IPv6 slice of every strict whole-packet result *)
+Theorem C02_packet_exts_iter_bounded : forall bs et p v,
+  entry bs et p -> sp_net p = Some (NtIpv6 v) ->
+  exists l, Ipv6ExtIterA.items (v6_exts v) = Ok l /\
+            8 * len l <= s_len (x6_slice (v6_exts v)) /\
+            tiles (s_off (x6_slice (v6_exts v))) (map item_win l)
+                  (s_off (x6_slice (v6_exts v)) + s_len (x6_slice (v6_exts v))).
+Proof. exact packet_exts_iter_bounded. Qed.
+Print Assumptions C02_packet_exts_iter_bounded.
+
+(* ---- non-vacuity ---------------------------------------------------------- *)
+(* IPv6 / hop-by-hop / destination options / fragment (offset 0, last) / UDP *)
+Definition ex6_pkt_tot : bytes :=
+  [96;0;0;0; 0;32; 0; 64] ++ repeat 1 16 ++ repeat 2 16 ++
+  [60;0;0;0;0;0;0;0] ++ [44;0;1;4;0;0;0;0] ++ [17;0;0;0;0;0;0;1] ++ [0;1;0;2;0;8;0;0].
+
+Example C02_exts_iter_ex :
+  bytes_ok ex6_pkt_tot /\
+  match SlicedPacket.from_ip ex6_pkt_tot with
+  | Ok (mkSliced _ _ (Some (NtIpv6 v)) (Some (TrUdp _)) as p) =>
+      (forallb (fun r => match r with Ok _ => true | _ => false end) (SlicedPacketA.accessors p),
+       match Ipv6ExtIterA.items (v6_exts v) with Ok l => Some (map item_win l) | _ => None end,
+       win_of (x6_slice (v6_exts v)))
+  | _ => (false, None, (0, 0))
+  end = (true, Some [(40, 8); (48, 8); (56, 8)], (40, 24)).
+Proof. split; [apply bytes_okb_spec; vm_compute; reflexivity|vm_compute; reflexivity]. Qed.
+
+(* an authentication header with payload_len 4 (24 bytes, 12 bytes ICV) and a routing header
+   of 16 bytes: both conversions succeed; the unwrap sites are reachable in the model *)
+Example C02_unwrap_ex :
+  (let s := mk_slice ([17;4;0;0; 0;0;0;1; 0;0;0;2] ++ repeat 9 12 ++ [255]) in
+   match IpAuthHeaderSlice.from_slice s with
+   | Ok h => (s_len h, IpAuthHeaderA.to_header h)
+   | _ => (0, Bug 0)
+   end) = (24, Ok (17, 1, 2, 3, repeat 9 12)) /\
+  (let s := mk_slice ([6;1] ++ repeat 7 14 ++ [255]) in
+   match Ipv6RawExtHeaderSlice.from_slice s with
+   | Ok h => (s_len h, Ipv6RawExtHeaderA.to_header h)
+   | _ => (0, Bug 0)
+   end) = (16, Ok (6, 1, repeat 7 14)) /\
+  IpAuthHeaderA.to_header (mk_slice [17;0;0;0;0;0;0;0;0;0;0;0;0;0]) = Bug SITE_UNWRAP.
+Proof. vm_compute. repeat split. Qed.
